@@ -425,6 +425,8 @@ func (w *c25World) step(pre, post *c25State, op c25Op, err error, obs c25Obs, dr
 	case "rmnode":
 		if m.N.Exists { // removing a node that does not exist is a no-op in the reference
 			m.N.Exists, m.N.Rep, m.N.Gone, m.N.Loose = false, false, "removed", false
+		} else if m.N.Rep {
+			m.N = c25Ent{Loose: true} // a report the store wrongly accepted for a missing node: not judged further
 		}
 	case "rmwl":
 		if m.W.Exists {
